@@ -26,6 +26,7 @@ pub struct Ledger {
     pub clone_dropped: [Cell<u8>; NPOS],
     pub garbage: Cell<u32>,
     pub clone_calls: Cell<u32>,
+    pub zst_dropped: Cell<u32>,
 }
 
 thread_local! {
@@ -35,6 +36,7 @@ thread_local! {
         clone_dropped: [const { Cell::new(0) }; NPOS],
         garbage: Cell::new(0),
         clone_calls: Cell::new(0),
+        zst_dropped: Cell::new(0),
     } };
 }
 
@@ -47,6 +49,7 @@ pub fn ledger_reset() {
         }
         l.garbage.set(0);
         l.clone_calls.set(0);
+        l.zst_dropped.set(0);
     });
 }
 #[inline]
@@ -154,5 +157,25 @@ impl Drop for BElem {
 impl Obs for BElem {
     fn seen(&self) -> Seen {
         Seen { key: self.key as usize, addr: 0, valid: self.magic == MAGIC && pos_of(self.key as usize) == Some(*self.heap as usize), is_clone: false }
+    }
+}
+
+/// zero-sized element with an observable destructor (raw-pointer iterators must count, not compare addresses)
+#[derive(Debug)]
+pub struct Zst;
+pub const ZKEY: usize = usize::MAX - 7;
+impl Drop for Zst {
+    fn drop(&mut self) {
+        let _ = LEDGER.try_with(|l| l.zst_dropped.set(l.zst_dropped.get() + 1));
+    }
+}
+impl Obs for Zst {
+    fn seen(&self) -> Seen {
+        Seen { key: ZKEY, addr: 0, valid: true, is_clone: false }
+    }
+}
+impl<'a> Obs for &'a Zst {
+    fn seen(&self) -> Seen {
+        Seen { key: ZKEY, addr: 0, valid: true, is_clone: false }
     }
 }
